@@ -2,6 +2,8 @@
    Property theorems only; proofs are in coq/proofs. *)
 From BW Require Import SpecTag SpecBlocks Run Unidiff.
 From BWP Require Import TextFacts Tag_proofs Pos_proofs Comment_proofs NoPanic_proofs.
+From BW Require Import Lang.
+From BWP Require Import Lang_proofs.
 
 (* From comments to blocks: tag scan, position arithmetic (line counting, rfind of newline, +1/-1), pairing - never a panic, for any comments. *)
 Theorem C04_blocks_no_panic : forall cs s,
@@ -71,3 +73,9 @@ Theorem C04_diff_no_panic_after_source : forall ls files cur s site,
   parse_lines ls files cur (Some s) <> Panic site.
 Proof. exact parse_lines_no_panic_after_source. Qed.
 Print Assumptions C04_diff_no_panic_after_source.
+
+(* For every registered language other than html / xml the normaliser its visitor applies never panics, whatever text the comment node holds. *)
+Theorem C04_registered_normalisers_total : forall fam raw g site,
+  fam <> F_XML -> normalise (kind_of fam raw g) raw <> Panic site.
+Proof. exact registered_normalisers_total. Qed.
+Print Assumptions C04_registered_normalisers_total.
